@@ -90,7 +90,7 @@ def EXHAUSTIVE(tier):
 
 
 def plan(tier, seed, avoid):
-    n = 110 if tier == "quick" else 1400
+    n = 80 if tier == "quick" else 1400
     specs = [{"part": "objgen", "shard": i, "n": n} for i in range(24 if tier == "quick" else 40)]
     for arch in CORPUS_ARCHES:
         specs.append({"part": "compiled", "arch": arch})
@@ -627,15 +627,17 @@ def probe_ptrfirst():
     obj.debug_info = di.DebugInfo()
     node = di.DebugStructType()
     ptr = di.DebugPointerType(node)
-    node.add_field("x", di.DebugBaseType("int", 4, 1), 0)
+    int_type = di.DebugBaseType("int", 4, 1)
+    node.add_field("x", int_type, 0)
     node.add_field("next", ptr, 4)
+    obj.debug_info.add(int_type)
     obj.debug_info.add(ptr)
     obj.debug_info.add(node)
     text = save_text(obj)
     try:
         ObjectFile.load(io.StringIO(text))
     except Exception as e:
-        return ("debug types [pointer to Node, struct Node {int x; Node *next}] (pointer registered first): load of "
+        return ("debug types [int, pointer to Node, struct Node {int x; Node *next}] (pointer registered first): load of "
                 "the saved object raises %s: %s" % (type(e).__name__, e))
     return None
 
